@@ -378,11 +378,44 @@ def rule_grav(repo):
     return res
 
 
+@guarded
+def rule_scan(repo):
+    """Every cumulative scan of the integrator runs along the frame axis.  _check normalises dt / gyro / acc to rank 3 (B, F, H) (C16.RANK) and every
+    increment table built from them in integrate() keeps that rank, so the frame axis is 1, equivalently -2; the transition tables of
+    propagate_cov are (B, F, 9, 9), frame axis 1, equivalently -3.  A scan along any other axis - in particular the size-1 signal axis of dt -
+    returns its input and the elapsed time / velocity / position is no longer the running sum of the recursion."""
+    res = RuleResult('C16.SCAN', 'every cumulative scan (cumsum / cumprod) and every concatenation of the initial zero / identity in integrate() and '
+                     'propagate_cov() runs along the frame axis: axis 1 of the (B, F, H) tables (-2), axis 1 of the (B, F, 9, 9) tables (-3)', floor=10)
+    for fn, ok_axes in ((CLS + '.integrate', (1, -2)), (CLS + '.propagate_cov', (1, -3))):
+        f = repo.func(IMU, fn)
+        for c in paths.calls_in(f.node):
+            d = dotted(c.func) or ''
+            last = d.split('.')[-1]
+            if last not in ('cumsum', 'cumprod', 'cummul', 'cumops', 'cumprod_', 'cumsum_', 'cat', 'concat', 'concatenate'):
+                continue
+            kw = {k.arg: k.value for k in c.keywords}
+            pos = c.args[1:] if d in ('torch.cumsum', 'cumprod', 'cumops', 'cummul', 'torch.cumprod', 'pp.cumprod', 'torch.cat', 'torch.concat',
+                                      'torch.concatenate') else c.args
+            ax = kw.get('dim', pos[0] if pos else None)
+            val = None
+            if isinstance(ax, ast.Constant):
+                val = ax.value
+            elif isinstance(ax, ast.UnaryOp) and isinstance(ax.op, ast.USub) and isinstance(ax.operand, ast.Constant):
+                val = -ax.operand.value
+            ok = val in ok_axes
+            res.inst({'function': f.fq, 'scan': src(c)[:60], 'axis': src(ax) if ax is not None else None, 'frame_axis': ok}, (fn, src(c)))
+            if not ok:
+                res.add(Finding('C16.SCAN', f, 'the scan / concatenation `%s` runs along axis %s; the frame axis of the tables in %s is %s: along any other axis the '
+                                'result is not the running sum / product of the recursion (along the size-1 signal axis of dt it is dt itself)'
+                                % (src(c)[:60], src(ax) if ax is not None else 'default', fn, ' or '.join(map(str, ok_axes))), node=c))
+    return res
+
+
 def _rules_core(repo, tier):
     from ..effects import rule_pure
     from ..fresh import rule_fresh
     t = [(IMU, CLS + '.forward'), (IMU, CLS + '.integrate'), (IMU, CLS + '.predict'), (IMU, CLS + '.propagate_cov'), (IMU, CLS + '._check')]
-    return [rule_grav(repo), rule_covord(repo), rule_carry(repo), rule_rank(repo), rule_dir_comp(repo), rule_dep(repo), rule_init(repo), rule_cov(repo),
+    return [rule_grav(repo), rule_scan(repo), rule_covord(repo), rule_carry(repo), rule_rank(repo), rule_dir_comp(repo), rule_dep(repo), rule_init(repo), rule_cov(repo),
             rule_pure(repo, 'C16.PURE', 'the integrator does not write in place into the measurement tensors it is given (dt, gyro, acc, rot, init_state): '
                       'feeding the same stream again, whole or in chunks, starts from the same data', t),
             rule_fresh(repo, 'C16.FRESH', 'nothing the integrator writes in place is loaded from the integrator object (the carried state is rebound, '
